@@ -19,13 +19,25 @@ namespace nmtools::view
         auto axis = meta::ct_v<-1>;
         auto initial = None;
 
-        return view::sum(
+        auto result = view::sum(
             view::multiply(a_lhs,a_rhs)
             , axis
             , dtype
             , initial
             , keepdims
         );
+        // NOTE: the contracted (last) extents must be equal, broadcasting in multiply would accept 1 against n
+        using result_t = decltype(result);
+        if constexpr (meta::is_maybe_v<result_t>) {
+            auto lhs_shape = shape<true>(lhs);
+            auto rhs_shape = shape<true>(rhs);
+            if (has_value(result)
+                && ((nm_size_t)at(unwrap(lhs_shape),meta::ct_v<-1>) != (nm_size_t)at(unwrap(rhs_shape),meta::ct_v<-1>))
+            ) {
+                return result_t{meta::Nothing};
+            }
+        }
+        return result;
     } // vecdot
 } // nmtools::view
 
